@@ -8,13 +8,13 @@ import mockgen as G
 # leg 1: exhaustive configurations, each exercising one group of features
 MC_QUICK = [
     ("core", dict(maxcalls=2)),
-    ("objout", dict(fns='"f"', pnames="", objs="1, 2", onames='"x"', odata="Raw1", rets="Rets2", maxexp=2, ns="1", maxcalls=2)),
+    ("objout", dict(fns='"f"', pnames="", objs="ObjsN1", onames='"x"', odata="Raw1", rets="Rets2", maxexp=2, ns="1", maxcalls=2)),
 ]
 MC_THOROUGH = [
     ("core", dict(maxcalls=4)),
     ("twoparams", dict(fns='"f"', pnames='"p", "q"', ns="1, 2", maxexp=2, maxcalls=3)),
     ("spellings", dict(fns='"f"', vals="Vals3", ns="1, 2", maxexp=2, maxcalls=3)),
-    ("objects", dict(fns='"f"', objs="1, 2", maxexp=2, ns="0, 1, 2", maxcalls=3)),
+    ("objects", dict(fns='"f"', objs="ObjsN1", maxexp=2, ns="0, 1, 2", maxcalls=3)),
     ("outputs", dict(fns='"f"', onames='"x"', odata="Raw2", rets="Rets3", maxexp=2, ns="1, 2", maxcalls=3)),
     ("scopes", dict(scopes="ScopesGS", fns='"f"', ns="1", maxexp=2, maxcalls=3)),
     ("toggles", dict(fns='"f"', ns="1, 2", maxexp=2, maxcalls=3, late="TRUE", toggles="TRUE")),
@@ -24,16 +24,16 @@ MC_THOROUGH = [
 GEN = [
     ("bfs", 5, None, None, dict(fns='"f"', ns="1", maxexp=1, maxcalls=2, rets="Rets2")),
     ("simcore", 14, 25, 700, dict(pnames='"p", "q"', vals="Vals3", rets="Rets3", maxexp=3, ns="0, 1, 2", maxcalls=5)),
-    ("simobj", 14, 15, 500, dict(objs="1, 2", onames='"x"', odata="Raw2", rets="Rets3", maxexp=3, ns="1, 2", maxcalls=4)),
+    ("simobj", 14, 15, 500, dict(objs="ObjsN12", onames='"x"', odata="Raw2", rets="Rets3", maxexp=3, ns="1, 2", maxcalls=4)),
     # one function, an object-bound expectation with a parameter next to a plain one (a seeded change in onObject() pruning was only
     # caught by the thorough tier before this configuration existed)
-    ("simobjpar", 12, 40, 600, dict(fns='"f"', objs="1, 2", pnames='"p"', rets="Rets2", maxexp=2, ns="1", maxcalls=3)),
+    ("simobjpar", 12, 40, 600, dict(fns='"f"', objs="ObjsN1", pnames='"p"', rets="Rets2", maxexp=2, ns="1", maxcalls=3)),
     # verdict steps (expectedCallsLeft, checkExpectations, the end of the test) over calls left in progress: exhaustive for two scopes with
     # one expectation each - every combination of "no call / finished call / open call that can / cannot be completed" per scope, with and
     # without further unfulfilled expectations -, sampled for three scopes with objects, two expectations and strict order (a call out of order
     # beside a call that cannot be completed).  Each deviation must reach the reporter once (Mock!ReportedOnce)
     ("bfsverdict", 6, None, None, dict(scopes="ScopesGS", fns='"f"', pnames='"p"', vals="Vals1", rets="Rets1", maxexp=1, ns="1", maxcalls=2, flags="FALSE")),
-    ("simverdict", 12, 30, 700, dict(scopes="ScopesGST", fns='"f"', pnames='"p"', objs="1", rets="Rets1", maxexp=2, ns="1", maxcalls=4)),
+    ("simverdict", 12, 30, 700, dict(scopes="ScopesGST", fns='"f"', pnames='"p"', objs="ObjsN1", rets="Rets1", maxexp=2, ns="1", maxcalls=4)),
     ("simscope", 16, 15, 500, dict(scopes="ScopesGS", fns='"f"', pnames='"p", "q"', rets="Rets2", maxexp=2, ns="1, 2", maxcalls=5, late="TRUE", toggles="TRUE")),
 ]
 
@@ -130,7 +130,7 @@ def run(ctx):
             distinct.add(json.dumps(e))
     return ctx.finish(
         rule="scenarios = TLC-generated behaviours of Mock (exhaustive for one expectation / two calls, simulation over 2-3 expectations, "
-             "objects, output parameters, scopes, disable/enable) plus seeded random scenarios (typed parameters, up to 12 expectations "
+             "objects - the null pointer is one of the object identities, on the expectation's side and on the call's -, output parameters, scopes, disable/enable) plus seeded random scenarios (typed parameters, up to 12 expectations "
              "and 30 calls); each runs on the real MockSupport twice: with a recording reporter (category at the failing step) and as the "
              "body of a fixture test with MockSupportPlugin (real verdict, the failures the test recorded in order); every failing step / "
              "end-of-test check must deliver each deviation present once (Mock!ReportedOnce: calls in progress that cannot be completed per "
@@ -142,4 +142,6 @@ def run(ctx):
                      "a verdict step under a reporter that does not end the test reports the first deviation and may report each further one "
                      "(other scopes' calls that cannot be completed, calls out of order) once; unfulfilled expectations are not reported beside a call "
                      "that could not be completed (Mock!Deviations)",
+                     "object identities: live objects and the null pointer (Mock!NullObj); an expectation made on an object - the null pointer too - is "
+                     "met only by a call on that very object",
                      "output buffers are 8 bytes; the random scenarios install comparators and copiers for their user types per scope (mockgen.install_plan)"])
